@@ -28,6 +28,9 @@ enum InputKind {
     Missing,
     Directory,
     Empty,
+    /// a valid document that does not come from a regular file: the program reads /dev/stdin, which is a pipe
+    /// (as with `cmd | xml_schema_generator /dev/stdin` or process substitution); its reported size is 0
+    Pipe,
 }
 
 #[derive(Clone, Debug, PartialEq)]
@@ -91,13 +94,14 @@ const CLI_DERIVES: &[&str] = &[
 
 fn decode(tapes: &Tapes) -> Scenario {
     let mut m = Tape::new(&tapes.c);
-    let input_kind = match m.weighted(&[10, 4, 2, 1, 1, 1]) {
+    let input_kind = match m.weighted(&[20, 8, 4, 2, 2, 2, 3]) {
         0 => InputKind::Valid,
         1 => InputKind::Damaged,
         2 => InputKind::NotUtf8,
         3 => InputKind::Missing,
         4 => InputKind::Directory,
-        _ => InputKind::Empty,
+        5 => InputKind::Empty,
+        _ => InputKind::Pipe,
     };
     let parser = *m.pick(&[None, Some("quick-xml-de"), Some("serde-xml-rs")]);
     let parser_short = m.chance(128);
@@ -120,7 +124,15 @@ fn decode(tapes: &Tapes) -> Scenario {
     let odd_names = m.chance(90);
     let same_length_existing = m.chance(90);
     let empty_existing = m.chance(50);
-    let rerun = m.chance(110);
+    let mut rerun = m.chance(110);
+    let mut output = output;
+    if matches!(input_kind, InputKind::Pipe) {
+        // a pipe can be read once and cannot be the output
+        rerun = false;
+        if output == OutputKind::SameAsInput {
+            output = OutputKind::NewFile;
+        }
+    }
     let mut t = Tape::new(&tapes.a);
     let mut dom = Domain::general();
     dom.no_prefix_clash = false;
@@ -250,15 +262,29 @@ fn boundary_scenarios() -> Vec<(String, Scenario)> {
             }
         }
     }
+    // input that is not a regular file (a pipe: reported size 0), of sizes below and above the pipe capacity
+    for n in [1usize, 50, 4096, 65536, 70000, 200_000] {
+        let mut doc = String::from("<a k=\"v\"><b>");
+        while doc.len() < n {
+            doc.push('x');
+        }
+        doc.push_str("</b></a>");
+        for o in [OutputKind::Stdout, OutputKind::NewFile] {
+            let label = format!("input of about {} bytes read from a pipe ({:?})", n, o);
+            let mut sc = plain_scenario(doc.clone().into_bytes(), o);
+            sc.input_kind = InputKind::Pipe;
+            out.push((label, sc));
+        }
+    }
     out
 }
 
 fn run(s: &Scenario, dir: &Path) -> Result<(), String> {
     std::fs::create_dir_all(dir).map_err(|e| format!("INFRA mkdir: {}", e))?;
     let (in_name, out_name) = if s.odd_names { ("in put é 名.xml", "out put é 名.rs") } else { ("input.xml", "out.rs") };
-    let input_path = dir.join(in_name);
+    let input_path = if matches!(s.input_kind, InputKind::Pipe) { PathBuf::from("/dev/stdin") } else { dir.join(in_name) };
     match s.input_kind {
-        InputKind::Missing => {}
+        InputKind::Missing | InputKind::Pipe => {}
         InputKind::Directory => std::fs::create_dir_all(&input_path).map_err(|e| format!("INFRA: {}", e))?,
         _ => std::fs::write(&input_path, &s.input).map_err(|e| format!("INFRA: {}", e))?,
     }
@@ -302,6 +328,7 @@ fn run(s: &Scenario, dir: &Path) -> Result<(), String> {
             std::os::unix::fs::symlink(&target, &link).map_err(|e| format!("INFRA symlink: {}", e))?;
             Some(link)
         }
+        OutputKind::SameAsInput if matches!(s.input_kind, InputKind::Pipe) => Some(dir.join(out_name)),
         OutputKind::SameAsInput => Some(input_path.clone()),
     };
     let link_target = dir.join("gen").join("target.rs");
@@ -342,7 +369,26 @@ fn run(s: &Scenario, dir: &Path) -> Result<(), String> {
         cmd.args(&pos_args).args(&opt_args);
     }
     cmd.env_remove("RUST_LOG").current_dir(dir);
-    let out = cmd.output().map_err(|e| format!("INFRA cannot run {}: {}", cli_path().display(), e))?;
+    let out = if matches!(s.input_kind, InputKind::Pipe) {
+        use std::io::Write;
+        let mut child = cmd
+            .stdin(std::process::Stdio::piped())
+            .stdout(std::process::Stdio::piped())
+            .stderr(std::process::Stdio::piped())
+            .spawn()
+            .map_err(|e| format!("INFRA cannot run {}: {}", cli_path().display(), e))?;
+        let mut stdin = child.stdin.take().ok_or("INFRA no stdin handle")?;
+        let data = s.input.clone();
+        // a program that fails early closes the pipe: the write error is expected then
+        let writer = std::thread::spawn(move || {
+            let _ = stdin.write_all(&data);
+        });
+        let out = child.wait_with_output().map_err(|e| format!("INFRA wait: {}", e))?;
+        let _ = writer.join();
+        out
+    } else {
+        cmd.output().map_err(|e| format!("INFRA cannot run {}: {}", cli_path().display(), e))?
+    };
     let code = out.status.code();
     let lib = library(s);
     let input_ok = !matches!(s.input_kind, InputKind::Missing | InputKind::Directory) && lib.is_ok();
@@ -488,7 +534,7 @@ fn run(s: &Scenario, dir: &Path) -> Result<(), String> {
                             return Err("the input was missing but a file of its name (also named as output) was created".into());
                         }
                     }
-                    InputKind::Directory => {}
+                    InputKind::Directory | InputKind::Pipe => {}
                     _ => {
                         let now = std::fs::read(&input_path).map_err(|e| format!("the input file vanished: {}", e))?;
                         if now != s.input {
@@ -522,7 +568,7 @@ impl Property for C12 {
         let dir = verif_root().join("work").join(format!("c12-{}", std::process::id())).join(format!("{}", n));
         let res = run(&s, &dir);
         let _ = std::fs::remove_dir_all(&dir);
-        let fault = !matches!(s.input_kind, InputKind::Valid) || !matches!(s.output, OutputKind::Stdout | OutputKind::NewFile | OutputKind::ExistingFile);
+        let fault = !matches!(s.input_kind, InputKind::Valid | InputKind::Pipe) || !matches!(s.output, OutputKind::Stdout | OutputKind::NewFile | OutputKind::ExistingFile);
         if fault || s.parser.is_some() || s.derive.is_some() || s.sort.is_some() || s.output != OutputKind::Stdout {
             st.nontrivial(hash_of(&(&s.input, s.parser, &s.derive, s.sort, format!("{:?}", s.output))));
         }
@@ -594,7 +640,7 @@ impl Property for C12 {
         Err(Failure::new(format!("no boundary scenario is labelled `{}`", label)))
     }
     fn rule(&self) -> String {
-        "output paths also as a symbolic link (dangling, or to an existing file: the path must hold the output afterwards, written through or replaced; link and target untouched when the input is at fault) and as the input file itself (overwritten, or refused cleanly); a fixed buffer-boundary family (inputs with a 2-, 3- or 4-byte character starting 0..len bytes before offsets 4096, 8192, 16384, 24576, 32768, 65536; inputs whose output has exactly 4096/8192/16384 bytes, one or two less, one more; stdout, new file, existing file); sampled: one process run of the freshly built CLI per case: input file in {generated valid document, byte-damaged UTF-8 document, non-UTF-8, missing, a directory, element-less} x --parser/-p in {default, quick-xml-de, serde-xml-rs} x --derive=<string from a list incl. empty, leading dashes, unicode, newline, shell metacharacters> or default x --sort in {default, unsorted, name} x output in {stdout, new file, existing file (empty, short, 15 KB and thus longer than the new output, or garbage of exactly the new output's length), path in a missing directory, path that is a directory, path below a regular file}, options before or after the positional arguments, written as `--opt=value`, `--opt value` or `-o value`, file names plain or with blanks and non-ASCII characters. Four in ten successful file outputs are followed by a second run into the same file with the other sort order and a permuted derive list (often the same output length). Oracle: success = exit 0 and stdout (plus newline) or file bytes equal header + in-process library rendering with the mapped options, stdout empty when a file is named; failure = exit 1, empty stdout, non-empty stderr, named output untouched when the input was at fault. Non-trivial = any non-default option, an output file or a fault; distinct by hash of input bytes and arguments.".into()
+        "output paths also as a symbolic link (dangling, or to an existing file: the path must hold the output afterwards, written through or replaced; link and target untouched when the input is at fault) and as the input file itself (overwritten, or refused cleanly); a fixed buffer-boundary family (inputs with a 2-, 3- or 4-byte character starting 0..len bytes before offsets 4096, 8192, 16384, 24576, 32768, 65536; inputs whose output has exactly 4096/8192/16384 bytes, one or two less, one more; stdout, new file, existing file); sampled: one process run of the freshly built CLI per case: input file in {generated valid document, byte-damaged UTF-8 document, non-UTF-8, missing, a directory, element-less, a valid document read from a pipe (/dev/stdin, reported size 0; also 12 enumerated pipe inputs of 1 byte .. 200 KB)} x --parser/-p in {default, quick-xml-de, serde-xml-rs} x --derive=<string from a list incl. empty, leading dashes, unicode, newline, shell metacharacters> or default x --sort in {default, unsorted, name} x output in {stdout, new file, existing file (empty, short, 15 KB and thus longer than the new output, or garbage of exactly the new output's length), path in a missing directory, path that is a directory, path below a regular file}, options before or after the positional arguments, written as `--opt=value`, `--opt value` or `-o value`, file names plain or with blanks and non-ASCII characters. Four in ten successful file outputs are followed by a second run into the same file with the other sort order and a permuted derive list (often the same output length). Oracle: success = exit 0 and stdout (plus newline) or file bytes equal header + in-process library rendering with the mapped options, stdout empty when a file is named; failure = exit 1, empty stdout, non-empty stderr, named output untouched when the input was at fault. Non-trivial = any non-default option, an output file or a fault; distinct by hash of input bytes and arguments.".into()
     }
     fn assumptions(&self) -> Vec<String> {
         vec![
